@@ -1,9 +1,14 @@
-"""Per-property obligations: which harness is driven over which cubes with which bounds."""
-from .driver import edge_lists, shape_cube, product
+"""Per-property obligations: which harness is driven over which cubes with which bounds.
+
+A cube concretises the *shape* dimension (edge list / option set / history); everything else stays
+symbolic and is decided by the solver: node sizes, spacings, map iteration orders, RNG picks, node
+names, alternative layerings. Bounds registered here are the ones that run clean on the unchanged
+tree (see DESIGN.md)."""
+from .driver import edge_lists, shape_cube, product, is_connected
 
 
 def phase1_cubes(N, M, fixed=None):
-    """all canonical connected loop-free edge lists, fully concretised (fixed = M) or with a symbolic tail"""
+    """canonical connected loop-free edge lists, fully concretised (fixed = M) or with a symbolic tail"""
     out = []
     fixed = M if fixed is None else fixed
     seen = set()
@@ -20,34 +25,6 @@ def phase1_cubes(N, M, fixed=None):
     return out
 
 
-def C14(tier):
-    obs = []
-    base = {"PANICS": 0, "RANDOM": 0, "KNOWN_G1": 0}
-    # fully symbolic shapes (solver picks the edge list)
-    sym = [(2, 2), (2, 3)] if tier == "quick" else [(2, 2), (2, 3), (2, 4)]
-    for alg, an in ((1, "dfs"), (0, "greedy")):
-        cubes = [dict(c) for (n, m) in sym for c in phase1_cubes(n, m, fixed=0)]
-        obs.append(dict(name="phase1-%s-symbolic" % an, pkg="internal/phase1", func="Harness_Phase1", consts=dict(base, ALG=alg),
-                        cubes=cubes, bounds="edge endpoints symbolic, (N,M) in %s" % sym, enctimeout=200, qtimeout=120))
-    # shape cubes with one symbolic tail edge / fully concretised shapes; solver decides map orders
-    grid = [(2, 2), (2, 3), (3, 2), (3, 3), (3, 4)] if tier == "quick" else [(2, 2), (2, 3), (2, 4), (3, 2), (3, 3), (3, 4), (3, 5), (4, 3), (4, 4), (4, 5)]
-    for alg, an in ((1, "dfs"), (0, "greedy")):
-        cubes = [c for (n, m) in grid for c in phase1_cubes(n, m)]
-        obs.append(dict(name="phase1-%s-cubes" % an, pkg="internal/phase1", func="Harness_Phase1", consts=dict(base, ALG=alg),
-                        cubes=cubes, bounds="all canonical connected edge lists with (N,M) in %s as cubes; symbolic: map iteration order" % grid))
-    return dict(obligations=obs)
-
-
-REG = {"C14": C14}
-
-
-def get(prop, tier):
-    f = REG.get(prop)
-    return f(tier) if f else None
-
-
-# ---------------------------------------------------------------- E-tier (whole autog.Layout)
-
 def shapes(maxN, maxM, selfloops=True, connected=False, **kw):
     out = []
     for N in range(1, maxN + 1):
@@ -56,96 +33,8 @@ def shapes(maxN, maxM, selfloops=True, connected=False, **kw):
     return out
 
 
-OPT_DEFAULT = {"P1": 0, "P2": 0, "P4": 4, "P5": 2, "BK": -1, "SZ": 2, "VIRT": 0, "INTSZ": 0, "NSFIX": -1, "LSFIX": -1}
-
-
-def layout_ob(name, func, shape_list, dims, consts=None, **kw):
-    cubes = product([shape_cube(s) for s in shape_list], dims)
-    c = dict(OPT_DEFAULT)
-    c.update(consts or {})
-    return dict(name=name, pkg=".", func=func, consts=c, cubes=cubes, **kw)
-
-
-def C04(tier):
-    sh = shapes(3, 3) if tier == "quick" else shapes(4, 4)
-    obs = [layout_ob("layout-no-overlap", "Harness_E_C04", sh, {"P4": [4, 1, 5], "P1": [0, 1], "P2": [0, 1]},
-                     consts={"P5": 0, "SZ": 2},
-                     bounds="all canonical edge lists (self-loops, several components) N<=%d M<=%d x {SinkColoring,VAlign,PackRight} x {greedy,dfs} x {NS,LP}; "
-                            "symbolic: per-node W,H in [0,64], NodeSpacing, LayerSpacing in [0,64], map orders" % ((3, 3) if tier == "quick" else (4, 4)))]
-    return dict(obligations=obs)
-
-
-REG["C04"] = C04
-
-
-def C03(tier):
-    q = tier == "quick"
-    sh = shapes(3, 3) if q else shapes(4, 4)
-    obs = [layout_ob("layout-bands-ns", "Harness_E_C03", sh, {"P4": [4, 1, 5], "P1": [0, 1]},
-                     consts={"P2": 0, "P5": 1, "SZ": 2, "KNOWN_FLAT": 0},
-                     bounds="all canonical edge lists N<=%d M<=%d x {SinkColoring,VAlign,PackRight} x {greedy,dfs} x network-simplex layering; "
-                            "symbolic: per-node sizes, NodeSpacing>=0, LayerSpacing>=1, map orders" % ((3, 3) if q else (4, 4))),
-           layout_ob("layout-bands-lp", "Harness_E_C03", sh, {"P4": [4, 1], "P1": [0, 1]},
-                     consts={"P2": 1, "P5": 1, "SZ": 2, "KNOWN_FLAT": 0},
-                     bounds="same shapes x longest-path layering")]
-    return dict(obligations=obs)
-
-
-def C02(tier):
-    q = tier == "quick"
-    sh = shapes(3, 3) if q else shapes(4, 4)
-    obs = [layout_ob("layout-same-graph", "Harness_E_C02", sh, {"P1": [0, 1], "P2": [0, 1], "SZ": [0, 1, 2, 3], "VIRT": [0, 1]},
-                     consts={"P4": 4, "P5": 2},
-                     bounds="all canonical edge lists N<=%d M<=%d x cycle breakers x layerers x size options x virtual-node output" % ((3, 3) if q else (4, 4)))]
-    return dict(obligations=obs)
-
-
-def C05(tier):
-    q = tier == "quick"
-    sh = shapes(3, 3) if q else shapes(4, 4)
-    obs = [layout_ob("layout-edge-anchors", "Harness_E_C05", sh, {"P5": [1, 2, 3], "P4": [4, 1, 5], "P1": [0, 1]},
-                     consts={"P2": 0, "SZ": 2},
-                     bounds="all canonical edge lists N<=%d M<=%d x {straight,polyline,ortho} x {SinkColoring,VAlign,PackRight} x {greedy,dfs}" % ((3, 3) if q else (4, 4)))]
-    return dict(obligations=obs)
-
-
-def C06(tier):
-    q = tier == "quick"
-    sh = shapes(3, 3) if q else shapes(4, 4)
-    obs = [layout_ob("layout-route-geometry", "Harness_E_C06", sh, {"P5": [1, 2, 3], "P4": [4, 1, 5], "VIRT": [0, 1]},
-                     consts={"P1": 1, "P2": 0, "SZ": 2, "KNOWN_ORTHO": 0},
-                     bounds="all canonical edge lists N<=%d M<=%d x {straight,polyline,ortho} x {SinkColoring,VAlign,PackRight} x virtual-node output" % ((3, 3) if q else (4, 4)))]
-    return dict(obligations=obs)
-
-
-def C01(tier):
-    q = tier == "quick"
-    sh = shapes(3, 3) if q else shapes(4, 4)
-    obs = [layout_ob("layout-returns", "Harness_E_C01", sh, {"P1": [0, 1, 2], "P2": [0, 1], "P4": [4, 1, 5, 3, 2], "P5": [0, 1, 2, 3]},
-                     consts={"SZ": 2},
-                     bounds="all canonical edge lists N<=%d M<=%d x 3 cycle breakers x 2 layerers x 5 positioners x {none,straight,polyline,ortho}" % ((3, 3) if q else (4, 4)))]
-    return dict(obligations=obs)
-
-
-REG.update({"C01": C01, "C02": C02, "C03": C03, "C05": C05, "C06": C06})
-
-
-def C07(tier):
-    q = tier == "quick"
-    sh = shapes(4, 2) + [s for s in shapes(3, 3) if s not in shapes(4, 2)] if q else shapes(4, 4)
-    obs = [layout_ob("layout-deterministic", "Harness_E_C07", sh, {"P1": [0, 1], "P2": [0, 1], "P4": [4, 1]},
-                     consts={"P5": 2, "SZ": 2},
-                     bounds="canonical edge lists x {greedy,dfs} x {NS,LP} x {SinkColoring,VAlign}, polyline; two calls with independent symbolic map iteration orders",
-                     enctimeout=60)]
-    return dict(obligations=obs)
-
-
-REG["C07"] = C07
-
-
 def trees(maxN, out=True):
-    """all rooted trees on <= maxN nodes as canonical edge lists, every edge order; out-trees (edges point away
-    from the root) or in-trees"""
+    """all rooted trees on <= maxN nodes as canonical edge lists in every edge order"""
     res = []
     for N in range(2, maxN + 1):
         for el in edge_lists(N, N - 1, selfloops=False, connected=True, simple=True):
@@ -161,50 +50,179 @@ def trees(maxN, out=True):
     return res
 
 
+OPT_DEFAULT = {"P1": 0, "P2": 0, "P4": 4, "P5": 2, "BK": -1, "SZ": 2, "VIRT": 0, "INTSZ": 0, "NSFIX": -1, "LSFIX": -1, "MINNS": 0, "MAXSZ": 64}
+SYMB = "symbolic (solver): per-node W,H in [0,64], NodeSpacing, LayerSpacing in [0,64]"
+
+
+def layout_ob(name, func, shape_list, dims, consts=None, **kw):
+    cubes = product([shape_cube(s) for s in shape_list], dims)
+    c = dict(OPT_DEFAULT)
+    c.update(consts or {})
+    return dict(name=name, pkg=".", func=func, consts=c, cubes=cubes, **kw)
+
+
+def nm(q, a, b):
+    return a if q else b
+
+
+# ------------------------------------------------------------------------------------------------
+
+def C01(tier):
+    q = tier == "quick"
+    N, M = nm(q, (3, 3), (4, 4))
+    sh = shapes(N, M)
+    obs = [layout_ob("layout-returns", "Harness_E_C01", sh, {"P1": [0, 1], "P2": [0, 1], "P4": [4, 1, 5]},
+                     consts={"P5": 2, "SZ": 2},
+                     bounds="all canonical edge lists N<=%d M<=%d (self-loops, parallel/antiparallel edges, several components) x {greedy,dfs} x {NS,LP} x "
+                            "{SinkColoring,VAlign,PackRight}, polyline; %s; every explicit panic, run-time panic site and loop/recursion budget is a query" % (N, M, SYMB)),
+           layout_ob("layout-returns-routers", "Harness_E_C01", sh, {"P5": [0, 1, 3], "P1": [0, 1]},
+                     consts={"P2": 0, "P4": 4, "SZ": 2}, bounds="same shapes x {no routing, straight, ortho} x {greedy,dfs}, SinkColoring"),
+           layout_ob("layout-returns-greedy-random", "Harness_E_C01", sh, {"P2": [0, 1]},
+                     consts={"P1": 2, "P4": 4, "P5": 2, "SZ": 0}, bounds="same shapes x greedy with RNG picks chosen by the solver (rand.Intn = arbitrary value in range)"),
+           layout_ob("layout-returns-bk", "Harness_E_C01", shapes(3, 3) if q else shapes(4, 3), {"BK": [-1, 0, 1, 2, 3], "P2": [0, 1]},
+                     consts={"P1": 0, "P4": 2, "P5": 2, "SZ": 5, "NSFIX": 10, "LSFIX": 20}, loop=96,
+                     bounds="canonical edge lists x Brandes-Koepf (balanced and forced layouts 0..3) x {NS,LP}; concrete heterogeneous sizes"),
+           layout_ob("layout-returns-nspos", "Harness_E_C01", shapes(3, 3) if q else shapes(4, 3), {"P1": [0, 1]},
+                     consts={"P2": 0, "P4": 3, "P5": 2, "SZ": 2, "INTSZ": 1, "MAXSZ": 2}, loop=192, enctimeout=200,
+                     bounds="canonical edge lists x NetworkSimplex positioner; symbolic integer sizes/spacings in 0..2 (ranks become slice indices)")]
+    return dict(obligations=obs)
+
+
+def C02(tier):
+    q = tier == "quick"
+    N, M = nm(q, (3, 3), (4, 4))
+    sh = shapes(N, M)
+    dims = {"P1": [0, 1], "SZ": [0, 1, 2, 3], "VIRT": [0, 1]} if q else {"P1": [0, 1], "P2": [0, 1], "SZ": [0, 1, 2, 3], "VIRT": [0, 1]}
+    obs = [layout_ob("layout-same-graph", "Harness_E_C02", sh, dims, consts={"P4": 4, "P5": 2},
+                     bounds="all canonical edge lists N<=%d M<=%d x cycle breakers%s x size options {none, fixed, per-node all, fixed+per-node some} x "
+                            "virtual-node output; symbolic sizes and spacings" % (N, M, "" if q else " x layerers"))]
+    if not q:
+        obs.append(layout_ob("layout-same-graph-lp", "Harness_E_C02", shapes(3, 3), {"P1": [0, 1], "SZ": [3], "VIRT": [0, 1], "P4": [1, 5]},
+                             consts={"P2": 1, "P5": 3}, bounds="N<=3 M<=3 x longest-path layering x {VAlign,PackRight} x ortho"))
+    return dict(obligations=obs)
+
+
+def C03(tier):
+    q = tier == "quick"
+    N, M = nm(q, (3, 3), (4, 4))
+    sh = shapes(N, M)
+    obs = [layout_ob("layout-bands-ns", "Harness_E_C03", sh, {"P4": [4, 1, 5], "P1": [0, 1]},
+                     consts={"P2": 0, "P5": 1, "SZ": 2, "KNOWN_FLAT": 0},
+                     bounds="all canonical edge lists N<=%d M<=%d x {SinkColoring,VAlign,PackRight} x {greedy,dfs} x network-simplex layering; "
+                            "symbolic per-node sizes, NodeSpacing>=0, LayerSpacing>=1" % (N, M)),
+           layout_ob("layout-bands-lp", "Harness_E_C03", sh, {"P4": [4, 1], "P1": [0, 1]},
+                     consts={"P2": 1, "P5": 1, "SZ": 2, "KNOWN_FLAT": 0}, bounds="same shapes x longest-path layering x {SinkColoring,VAlign}")]
+    return dict(obligations=obs)
+
+
+def C04(tier):
+    q = tier == "quick"
+    N, M = nm(q, (3, 3), (4, 4))
+    sh = shapes(N, M)
+    obs = [layout_ob("layout-no-overlap", "Harness_E_C04", sh, {"P4": [4, 1, 5], "P1": [0, 1], "P2": [0, 1]},
+                     consts={"P5": 0, "SZ": 2},
+                     bounds="all canonical edge lists N<=%d M<=%d x {SinkColoring,VAlign,PackRight} x {greedy,dfs} x {NS,LP}; %s" % (N, M, SYMB)),
+           layout_ob("layout-no-overlap-nspos", "Harness_E_C04", shapes(3, 3) if q else shapes(4, 3), {"P1": [0, 1]},
+                     consts={"P2": 0, "P4": 3, "P5": 0, "SZ": 2, "INTSZ": 1, "MAXSZ": 2}, loop=192, enctimeout=200,
+                     bounds="canonical edge lists x NetworkSimplex positioner; symbolic integer W,H,spacings in 0..2"),
+           layout_ob("layout-no-overlap-nspos-concrete", "Harness_E_C04", shapes(3, 3) if q else shapes(4, 4), {"P1": [0, 1]},
+                     consts={"P2": 0, "P4": 3, "P5": 0, "SZ": 5, "INTSZ": 1, "NSFIX": 10, "LSFIX": 20}, loop=192,
+                     bounds="canonical edge lists x NetworkSimplex positioner; concrete heterogeneous sizes 10..22 x 8..12, spacing 10/20")]
+    return dict(obligations=obs)
+
+
+def C05(tier):
+    q = tier == "quick"
+    N, M = nm(q, (3, 3), (4, 4))
+    sh = shapes(N, M)
+    obs = [layout_ob("layout-edge-anchors", "Harness_E_C05", sh, {"P5": [1, 2, 3], "P4": [4, 1, 5], "P1": [0, 1]},
+                     consts={"P2": 0, "SZ": 2},
+                     bounds="all canonical edge lists N<=%d M<=%d x {straight,polyline,ortho} x {SinkColoring,VAlign,PackRight} x {greedy,dfs}; %s (LayerSpacing>=1)" % (N, M, SYMB))]
+    if not q:
+        obs.append(layout_ob("layout-edge-anchors-lp", "Harness_E_C05", shapes(3, 3), {"P5": [1, 2, 3], "P1": [0, 1]},
+                             consts={"P2": 1, "P4": 4, "SZ": 2}, bounds="N<=3 M<=3 x longest-path layering"))
+    return dict(obligations=obs)
+
+
+def C06(tier):
+    q = tier == "quick"
+    N, M = nm(q, (3, 3), (4, 4))
+    sh = shapes(N, M)
+    obs = [layout_ob("layout-route-geometry", "Harness_E_C06", sh, {"P5": [1, 2, 3], "P4": [4, 1, 5], "VIRT": [0, 1]},
+                     consts={"P1": 1, "P2": 0, "SZ": 2, "KNOWN_ORTHO": 0},
+                     bounds="all canonical edge lists N<=%d M<=%d x {straight,polyline,ortho} x {SinkColoring,VAlign,PackRight} x virtual-node output; %s" % (N, M, SYMB))]
+    return dict(obligations=obs)
+
+
+def C07(tier):
+    q = tier == "quick"
+    sh = shapes(4, 2) + [s for s in shapes(3, 3) if s not in shapes(4, 2)] if q else shapes(4, 4)
+    obs = [layout_ob("layout-deterministic", "Harness_E_C07", sh, {"P1": [0, 1], "P2": [0, 1], "P4": [4, 1]},
+                     consts={"P5": 2, "SZ": 2},
+                     bounds="canonical edge lists (%s) x {greedy,dfs} x {NS,LP} x {SinkColoring,VAlign}, polyline; two calls, every `range` over a map "
+                            "visits its keys in an independent solver-chosen order in each call; input slices/maps compared before/after" % nm(q, "N<=4 M<=2 and N<=3 M<=3", "N<=4 M<=4"),
+                     enctimeout=90, maporder="symbolic")]
+    if not q:
+        obs.append(layout_ob("layout-deterministic-more", "Harness_E_C07", shapes(3, 3), {"P4": [5, 2, 3], "P5": [1, 3]},
+                             consts={"P1": 0, "P2": 0, "SZ": 5, "INTSZ": 1, "NSFIX": 10, "LSFIX": 20}, loop=192, enctimeout=200, maporder="symbolic",
+                             bounds="N<=3 M<=3 x {PackRight,B&K,NS positioner} x {straight,ortho}, concrete sizes, symbolic map orders"))
+    return dict(obligations=obs)
+
+
 def C08(tier):
     q = tier == "quick"
-    sh = [s for s in shapes(3, 3, selfloops=False)] if q else shapes(4, 4)
-    obs = [layout_ob("layout-rename", "Harness_E_C08", sh, {"P4": [4, 3] if q else [4, 1, 3], "P1": [0] if q else [0, 1]},
-                     consts={"P2": 0, "P5": 2, "SZ": 2, "INTSZ": 1},
-                     bounds="canonical edge lists x {SinkColoring,NetworkSimplex positioner}; symbolic: injective renaming chosen by the solver from the alphabet "
-                            "{a,V1,V2,V3,NE0..NE3,'',non-ASCII,n0,n1}, integer sizes/spacings", enctimeout=90, qtimeout=60)]
+    sh = [[(0, 1)], [(0, 1), (0, 2)], [(0, 1), (1, 2), (0, 2)], [(0, 1), (1, 0)], [(0, 0), (0, 1)]] if q else shapes(3, 3)
+    obs = [layout_ob("layout-rename", "Harness_E_C08", sh, {"P4": [4, 3]},
+                     consts={"P1": 0, "P2": 0, "P5": 2, "SZ": 5, "INTSZ": 1, "NSFIX": 10, "LSFIX": 20},
+                     bounds="%s x {SinkColoring, NetworkSimplex positioner}; symbolic: an injective renaming chosen by the solver from the alphabet "
+                            "{a,V1,V2,V3,NE0..NE3,'',non-ASCII,n0,n1}; concrete heterogeneous sizes" % nm(q, "5 shapes (edge, fork, long edge, 2-cycle, self-loop)", "all canonical edge lists N<=3 M<=3"),
+                     enctimeout=240, qtimeout=120, loop=192)]
     return dict(obligations=obs)
 
 
 def C09(tier):
     q = tier == "quick"
-    multi = [s for s in (shapes(4, 3) if q else shapes(5, 4)) if not __import__("vlib.driver").driver.is_connected(s, 1 + max(max(e) for e in s))]
-    obs = [layout_ob("layout-components", "Harness_E_C09", multi, {"P4": [4, 1, 5], "P1": [0, 1], "P2": [0, 1]},
-                     consts={"P5": 2, "SZ": 2},
-                     bounds="all canonical edge lists with >= 2 components (N<=%d, M<=%d; interleaved edge orders, self-looped singletons) x 3 positioners x 2 breakers x 2 layerers" % ((4, 3) if q else (5, 4)))]
+    N, M = nm(q, (4, 3), (5, 4))
+    multi = [s for s in shapes(N, M) if not is_connected(s, 1 + max(max(e) for e in s))]
+    dims = {"P4": [4, 1, 5], "P1": [0, 1], "P2": [0, 1]}
+    obs = [layout_ob("layout-components", "Harness_E_C09", multi, dims, consts={"P5": 2, "SZ": 2},
+                     bounds="all canonical edge lists with >= 2 components (N<=%d, M<=%d; interleaved edge orders, self-looped singletons) x 3 positioners x "
+                            "2 breakers x 2 layerers; %s" % (N, M, SYMB))]
     return dict(obligations=obs)
 
 
 def C10(tier):
     q = tier == "quick"
-    sh = shapes(4, 4, selfloops=False, connected=True) if q else shapes(5, 5, selfloops=False, connected=True)
+    N, M = nm(q, (4, 4), (5, 5))
+    sh = shapes(N, M, selfloops=False, connected=True)
     obs = [layout_ob("layout-ns-optimal", "Harness_E_C10", sh, {"P1": [0, 1]},
                      consts={"P2": 0, "P4": 1, "P5": 0, "SZ": 0, "LSFIX": 1, "NSFIX": 1},
                      bounds="all canonical connected loop-free edge lists N<=%d M<=%d x {greedy,dfs}; symbolic: an arbitrary alternative layering alt[i] in 0..15 "
-                            "(the solver searches for a cheaper feasible layering)" % ((4, 4) if q else (5, 5)))]
+                            "(the solver searches for a cheaper feasible layering of the drawn orientation)" % (N, M))]
+    if not q:
+        multi = [s for s in shapes(5, 4, selfloops=True) if not is_connected(s, 1 + max(max(e) for e in s))]
+        obs.append(layout_ob("layout-ns-optimal-components", "Harness_E_C10", multi, {"P1": [0]},
+                             consts={"P2": 0, "P4": 1, "P5": 0, "SZ": 0, "LSFIX": 1, "NSFIX": 1}, bounds="edge lists with >= 2 components and self-loops N<=5 M<=4"))
     return dict(obligations=obs)
 
 
 def C11(tier):
     q = tier == "quick"
-    sh = shapes(4, 4) if q else shapes(5, 5, selfloops=False)
+    sh = shapes(4, 3) + shapes(3, 4) if q else shapes(5, 5, selfloops=False) + shapes(4, 4)
     obs = [layout_ob("layout-lp-min-layers", "Harness_E_C11", sh, {"P1": [0, 1]},
                      consts={"P2": 1, "P4": 1, "P5": 0, "SZ": 0, "LSFIX": 1, "NSFIX": 1},
-                     bounds="all canonical edge lists N<=%d M<=%d x {greedy,dfs} x longest-path layering" % ((4, 4) if q else (5, 5)))]
+                     bounds="canonical edge lists (%s) x {greedy,dfs} x longest-path layering" % nm(q, "N<=4 M<=3 and N<=3 M<=4", "N<=5 M<=5 loop-free and N<=4 M<=4 with self-loops"))]
     return dict(obligations=obs)
 
 
 def C12(tier):
     q = tier == "quick"
-    sh = shapes(4, 4, selfloops=False, connected=True, simple=True) if q else shapes(5, 6, selfloops=False, connected=True, simple=True)
+    N, M = nm(q, (4, 4), (5, 5))
+    sh = shapes(N, M, selfloops=False, connected=True, simple=True)
     obs = [layout_ob("layout-crossings", "Harness_E_C12", sh, {"P4": [4, 1, 5], "P2": [0, 1]},
-                     consts={"P1": 1, "P5": 2, "SZ": 4, "LSFIX": 1},
-                     bounds="all canonical connected simple edge lists N<=%d M<=%d x {SinkColoring,VAlign,PackRight} x {NS,LP}, polyline; symbolic widths, NodeSpacing" % ((4, 4) if q else (5, 6)))]
+                     consts={"P1": 1, "P5": 2, "SZ": 4, "LSFIX": 1, "MINNS": 1},
+                     bounds="all canonical connected simple edge lists N<=%d M<=%d x {SinkColoring,VAlign,PackRight} x {NS,LP}, polyline; symbolic widths in [0,64], "
+                            "NodeSpacing in [1,64] (zero heights so that route points lie on the bands)" % (N, M))]
     return dict(obligations=obs)
 
 
@@ -213,27 +231,55 @@ def C13(tier):
     n = 5 if q else 6
     sh = trees(n, True) + trees(n, False)
     obs = [layout_ob("layout-trees-planar", "Harness_E_C13", sh, {"P4": [4, 1, 5]},
-                     consts={"P1": 0, "P2": 0, "P5": 2, "SZ": 4, "LSFIX": 1},
-                     bounds="all out-trees and in-trees with <= %d nodes in every edge order x {SinkColoring,VAlign,PackRight}; symbolic widths, NodeSpacing" % n)]
+                     consts={"P1": 0, "P2": 0, "P5": 2, "SZ": 4, "LSFIX": 1, "MINNS": 1},
+                     bounds="all out-trees and in-trees with <= %d nodes in every edge order x {SinkColoring,VAlign,PackRight}; symbolic widths, NodeSpacing>=1" % n)]
+    return dict(obligations=obs)
+
+
+def C14(tier):
+    q = tier == "quick"
+    obs = []
+    base = {"PANICS": 0, "RANDOM": 0, "KNOWN_G1": 0}
+    sym = [(2, 2)] if q else [(2, 2), (2, 3)]
+    for alg, an in ((1, "dfs"), (0, "greedy")):
+        cubes = [dict(c) for (n, m) in sym for c in phase1_cubes(n, m, fixed=0)]
+        obs.append(dict(name="phase1-%s-symbolic" % an, pkg="internal/phase1", func="Harness_Phase1", consts=dict(base, ALG=alg),
+                        cubes=cubes, bounds="edge endpoints fully symbolic (the solver picks the edge list), (N,M) in %s; symbolic map orders" % sym,
+                        enctimeout=400, qtimeout=200, maporder="symbolic"))
+    # one symbolic tail edge on top of every concretised prefix
+    tail = [(2, 3), (3, 3)] if q else [(2, 3), (2, 4), (3, 3), (3, 4)]
+    for alg, an in ((1, "dfs"), (0, "greedy")):
+        cubes = [c for (n, m) in tail for c in phase1_cubes(n, m, fixed=m - 1)]
+        obs.append(dict(name="phase1-%s-symbolic-tail" % an, pkg="internal/phase1", func="Harness_Phase1", consts=dict(base, ALG=alg),
+                        cubes=cubes, bounds="every canonical prefix of M-1 edges as a cube, last edge symbolic, (N,M) in %s" % tail,
+                        enctimeout=300, qtimeout=120, maporder="symbolic"))
+    grid = [(2, 2), (2, 3), (3, 2), (3, 3), (3, 4), (4, 3), (4, 4)] if q else [(2, 2), (2, 3), (2, 4), (2, 5), (3, 2), (3, 3), (3, 4), (3, 5), (4, 3), (4, 4), (4, 5), (5, 4), (5, 5)]
+    for alg, an in ((1, "dfs"), (0, "greedy")):
+        cubes = [c for (n, m) in grid for c in phase1_cubes(n, m)]
+        obs.append(dict(name="phase1-%s-cubes" % an, pkg="internal/phase1", func="Harness_Phase1", consts=dict(base, ALG=alg),
+                        cubes=cubes, maporder="symbolic",
+                        bounds="all canonical connected loop-free edge lists with (N,M) in %s as cubes; symbolic: map iteration orders" % grid))
     return dict(obligations=obs)
 
 
 def C16(tier):
     q = tier == "quick"
-    sh = shapes(4, 4, connected=True) if q else shapes(5, 5, connected=True)
+    N, M = nm(q, (4, 3), (5, 4))
+    sh = shapes(N, M, connected=True) + (shapes(3, 4, connected=True) if q else shapes(4, 5, connected=True, selfloops=False))
     obs = [layout_ob("layout-valign-packright", "Harness_E_C16", sh, {"P4": [1, 5], "P1": [0, 1]},
                      consts={"P2": 0, "P5": 2, "SZ": 2, "VIRT": 1},
-                     bounds="all canonical connected edge lists N<=%d M<=%d x {VAlign,PackRight} x {greedy,dfs}, helper nodes in the output; symbolic sizes and spacings" % ((4, 4) if q else (5, 5)))]
+                     bounds="all canonical connected edge lists (%s) x {VAlign,PackRight} x {greedy,dfs}, helper nodes in the output; %s (LayerSpacing>=1)" % (
+                         nm(q, "N<=4 M<=3, N<=3 M<=4", "N<=5 M<=4, N<=4 M<=5"), SYMB))]
     return dict(obligations=obs)
 
 
 def C17(tier):
     q = tier == "quick"
-    sh = shapes(3, 3) if q else shapes(4, 4)
+    sh = shapes(3, 3)
     ks = [-1, 1] if q else [-3, -2, -1, 1, 2, 3, 4, 5, 6]
-    obs = [layout_ob("layout-scale", "Harness_E_C17", sh, {"P4": [4, 1, 5, 2], "P5": [1, 2, 3], "K": ks},
+    obs = [layout_ob("layout-scale", "Harness_E_C17", sh, {"P4": [4, 1, 5], "P5": [1, 2, 3], "K": ks},
                      consts={"P1": 0, "P2": 0, "SZ": 2},
-                     bounds="canonical edge lists x {SinkColoring,VAlign,PackRight,B&K} x {straight,polyline,ortho} x factors 2^k, k in %s" % ks)]
+                     bounds="all canonical edge lists N<=3 M<=3 x {SinkColoring,VAlign,PackRight} x {straight,polyline,ortho} x factors 2^k, k in %s; %s" % (ks, SYMB))]
     return dict(obligations=obs)
 
 
@@ -245,12 +291,19 @@ def C18(tier):
     for i in range(K):
         hist = [dict(h, **{"kind[%d]" % i: k, "mon[%d]" % i: m}) for h in hist for k in range(4) for m in range(2)]
     small = [[(0, 1), (1, 2), (0, 2)], [(0, 0), (0, 1)]]
-    obs = [layout_ob("monitor-does-not-change-layout", "Harness_E_C18a", sh, {"P4": [4, 2], "P2": [0, 1]},
-                     consts={"P1": 0, "P5": 2, "SZ": 2}, bounds="canonical edge lists x {SinkColoring,B&K} x {NS,LP}: layout with and without a recording monitor"),
+    obs = [layout_ob("monitor-does-not-change-layout", "Harness_E_C18a", sh, {"P4": [4, 1], "P2": [0, 1]},
+                     consts={"P1": 0, "P5": 2, "SZ": 2}, bounds="canonical edge lists x {SinkColoring,VAlign} x {NS,LP}: layout with and without a recording monitor; " + SYMB),
            dict(name="monitor-histories", pkg=".", func="Harness_E_C18b", consts=dict(OPT_DEFAULT, K=K),
                 cubes=[dict(shape_cube(s), **h) for s in small for h in hist],
-                bounds="all histories of %d calls, each one of {empty graph (panics), self-looped node, one edge, a 3-node graph} x {own monitor, none}" % K)]
+                bounds="all histories of %d calls, each one of {empty graph (panics), self-looped node, one edge, a 3-node graph} x {own monitor, none}; "
+                       "panic / deferred Reset semantics executed by the engine" % K)]
     return dict(obligations=obs)
 
 
-REG.update({"C08": C08, "C09": C09, "C10": C10, "C11": C11, "C12": C12, "C13": C13, "C16": C16, "C17": C17, "C18": C18})
+REG = {"C01": C01, "C02": C02, "C03": C03, "C04": C04, "C05": C05, "C06": C06, "C07": C07, "C08": C08, "C09": C09, "C10": C10,
+       "C11": C11, "C12": C12, "C13": C13, "C14": C14, "C16": C16, "C17": C17, "C18": C18}
+
+
+def get(prop, tier):
+    f = REG.get(prop)
+    return f(tier) if f else None
